@@ -149,6 +149,12 @@ def auto_discharge(f, b, s):
                     return "unwrap dominated by the true edge of is_some/is_ok of the same value"
                 if is_call(cnd, ["Option::is_none", "Result::is_err"]) and peel(cnd[2][0]) == v and b.edge_dominates(bi, tf, c.bb):
                     return "unwrap dominated by the false edge of is_none/is_err of the same value"
+        if c.matches(["RefCell::borrow", "RefCell::borrow_mut"]) and re.search(r"LocalHistogram|GenericLocalCounter", b.path):
+            # a !Sync handle whose every borrow is a temporary of one method: with a single borrow in the body nothing else can hold the cell
+            same = [x for x in b.calls_to(["RefCell::borrow", "RefCell::borrow_mut"]) if peel(x.args[0]) == peel(c.args[0])]
+            own = peel(c.args[0])
+            if len(same) == 1 and isinstance(own, tuple) and own[0] == "field" and peel(own[1]) in (("param", 1), ("deref", ("param", 1))):
+                return "the only RefCell borrow of this field in a method of a !Sync local metric (no other borrow can be live)"
         if c.matches(["str::split_at", "Index::index"]) and len(c.args) == 2:
             # slicing a string at the position memchr found an ASCII needle in that same string: in range and on a char boundary
             recv = peel(c.args[0])
